@@ -103,13 +103,17 @@ theorem InvZ.of_inv {c c' : Ctx} (i : Inv c c') : InvZ c c' := ⟨i.z0, i.z1, i.
 theorem InvZ.of_read {inp : Array UInt8} {c c' : Ctx} (h : ReadOK inp c c') : InvZ c c' :=
   InvZ.of_inv (Inv.of_read h)
 
+/-- Sizes of the array registers (kept by every transition). -/
+def Shape (c : Ctx) : Prop := c.r.rawHeader.size = 4 ∧ c.r.tableSizes.size = 3 ∧ c.r.lenCodes.size = 512
+
 variable {e : Env} {c : Ctx} {outA : Array UInt8}
 
 /-- `ReadBlockHeader` for a stored block. -/
 theorem micro_header_stored {pos hdr : Nat} (hs : c.r.state = sReadBlockHeader) (hr : Rep e.inp c pos)
     (hv : bitsAt e.inp pos 3 = some hdr) (hbt : hdr / 2 = 0) :
     ∃ c1, step e c outA = .cont c1 outA ∧ c1.r.state = sBlockTypeNoCompression ∧ c1.r.finish = hdr % 2 ∧
-      Rep e.inp c1 (pos + 3) ∧ (c.r.numBits < 8 → c1.r.numBits < 8) ∧ c1.outPos = c.outPos ∧ InvZ c c1 := by
+      Rep e.inp c1 (pos + 3) ∧ (c.r.numBits < 8 → c1.r.numBits < 8) ∧ c1.outPos = c.outPos ∧ InvZ c c1 ∧
+      (Shape c → Shape c1) := by
   obtain ⟨c1, hrb, hr1, h8, hok, _⟩ := readBits_full hr hv
   rw [step_ReadBlockHeader hs]
   unfold stReadBlockHeader
@@ -117,14 +121,18 @@ theorem micro_header_stored {pos hdr : Nat} (hs : c.r.state = sReadBlockHeader) 
   have hz : hdr / 2 % 4 = 0 := by omega
   simp only [hz, ↓reduceIte]
   have i := InvZ.of_read hok
-  exact ⟨_, rfl, rfl, rfl, hr1.of_eq rfl rfl rfl, h8, hok.outPos, ⟨i.z0, i.z1, i.zA, i.chk⟩⟩
+  have hreg := hok.regs
+  exact ⟨_, rfl, rfl, rfl, hr1.of_eq rfl rfl rfl, h8, hok.outPos, ⟨i.z0, i.z1, i.zA, i.chk⟩,
+    fun sh => ⟨by show c1.r.rawHeader.size = 4; rw [hreg]; exact sh.1, by show c1.r.tableSizes.size = 3; rw [hreg]; exact sh.2.1,
+      by show c1.r.lenCodes.size = 512; rw [hreg]; exact sh.2.2⟩⟩
 
 /-- `ReadBlockHeader` for a fixed-Huffman block: the tables are ready in the same transition. -/
 theorem micro_header_fixed {pos hdr : Nat} (hs : c.r.state = sReadBlockHeader) (hr : Rep e.inp c pos)
     (hv : bitsAt e.inp pos 3 = some hdr) (hbt : hdr / 2 = 1) :
     ∃ c1, step e c outA = .cont c1 outA ∧ c1.r.state = sDecodeLitlen ∧ c1.r.finish = hdr % 2 ∧
       c1.r.litCode = fixedLitCode ∧ c1.r.distCode = fixedDistCode ∧
-      Rep e.inp c1 (pos + 3) ∧ (c.r.numBits < 8 → c1.r.numBits < 8) ∧ c1.outPos = c.outPos ∧ InvZ c c1 := by
+      Rep e.inp c1 (pos + 3) ∧ (c.r.numBits < 8 → c1.r.numBits < 8) ∧ c1.outPos = c.outPos ∧ InvZ c c1 ∧
+      (Shape c → Shape c1) := by
   obtain ⟨c1, hrb, hr1, h8, hok, _⟩ := readBits_full hr hv
   rw [step_ReadBlockHeader hs]
   unfold stReadBlockHeader
@@ -135,14 +143,18 @@ theorem micro_header_fixed {pos hdr : Nat} (hs : c.r.state = sReadBlockHeader) (
   simp only [Nat.succ_ne_self, Nat.reduceEqDiff, ↓reduceIte, fixed_dist_valid, fixed_lit_valid, Bool.not_true,
     Bool.false_eq_true]
   have i := InvZ.of_read hok
-  exact ⟨_, rfl, rfl, rfl, rfl, rfl, hr1.of_eq rfl rfl rfl, h8, hok.outPos, ⟨i.z0, i.z1, i.zA, i.chk⟩⟩
+  have hreg := hok.regs
+  exact ⟨_, rfl, rfl, rfl, rfl, rfl, hr1.of_eq rfl rfl rfl, h8, hok.outPos, ⟨i.z0, i.z1, i.zA, i.chk⟩,
+    fun sh => ⟨by show c1.r.rawHeader.size = 4; rw [hreg]; exact sh.1, rfl,
+      by show c1.r.lenCodes.size = 512; rw [hreg]; exact sh.2.2⟩⟩
 
 /-- `ReadBlockHeader` for a dynamic-Huffman block. -/
 theorem micro_header_dynamic {pos hdr : Nat} (hs : c.r.state = sReadBlockHeader) (hr : Rep e.inp c pos)
     (hv : bitsAt e.inp pos 3 = some hdr) (hbt : hdr / 2 = 2) :
     ∃ c1, step e c outA = .cont c1 outA ∧ c1.r.state = sReadTableSizes ∧ c1.r.finish = hdr % 2 ∧
       c1.r.counter = 0 ∧ c1.r.blockType = 2 ∧
-      Rep e.inp c1 (pos + 3) ∧ (c.r.numBits < 8 → c1.r.numBits < 8) ∧ c1.outPos = c.outPos ∧ InvZ c c1 := by
+      Rep e.inp c1 (pos + 3) ∧ (c.r.numBits < 8 → c1.r.numBits < 8) ∧ c1.outPos = c.outPos ∧ InvZ c c1 ∧
+      (Shape c → Shape c1) := by
   obtain ⟨c1, hrb, hr1, h8, hok, _⟩ := readBits_full hr hv
   rw [step_ReadBlockHeader hs]
   unfold stReadBlockHeader
@@ -150,7 +162,10 @@ theorem micro_header_dynamic {pos hdr : Nat} (hs : c.r.state = sReadBlockHeader)
   have hz : hdr / 2 % 4 = 2 := by omega
   simp only [hz, ↓reduceIte, Nat.succ_ne_self, Nat.reduceEqDiff]
   have i := InvZ.of_read hok
-  exact ⟨_, rfl, rfl, rfl, rfl, rfl, hr1.of_eq rfl rfl rfl, h8, hok.outPos, ⟨i.z0, i.z1, i.zA, i.chk⟩⟩
+  have hreg := hok.regs
+  exact ⟨_, rfl, rfl, rfl, rfl, rfl, hr1.of_eq rfl rfl rfl, h8, hok.outPos, ⟨i.z0, i.z1, i.zA, i.chk⟩,
+    fun sh => ⟨by show c1.r.rawHeader.size = 4; rw [hreg]; exact sh.1, by show c1.r.tableSizes.size = 3; rw [hreg]; exact sh.2.1,
+      by show c1.r.lenCodes.size = 512; rw [hreg]; exact sh.2.2⟩⟩
 
 theorem copyStored_spec (data : Array UInt8) (n : Nat) : ∀ (q : Nat) (o o' : Array UInt8),
     copyStored data q o n = some o' → (0 < n → q + n ≤ data.size) ∧ o'.size = o.size + n := by
